@@ -35,6 +35,12 @@ Next == /\ Len(hist) < MaxOps /\ last.ok
            \/ \E ix \in IdxArgs : Step("intidx", ix, TakeNoFill(cur, ix))
            \/ \E ix \in IdxArgs : Step("take", ix, TakeNoFill(cur, ix))
            \/ \E ix \in FillArgs : Step("takefill", ix, TakeFill(cur, ix))
+           \/ \E k \in {-2, -1, 1, 3} : Step("shift", <<k>>, Shift(cur, k))
+           \/ Step("repeat", <<2>>, Repeat(cur, 2))
+           \/ Step("dropna", <<>>, DropNa(cur))
+           \/ Len(src) >= 1 /\ src[1] # NullIx /\ Step("fillna", <<src[1]>>, FillNa(cur, src[1]))       \* the fill value is the source's first element
+           \/ Len(src) >= 1 /\ \E loc \in {0, 1, -1, 4} : Step("insert", <<loc, src[1]>>, Insert(cur, loc, src[1]))
+           \/ \E P \in {{0}, {-1, 0}, {1}, {3}} : Step("delete", P, Delete(cur, P))
            \/ Step("concat_self", <<>>, Concat(cur, cur))
            \/ Step("concat_src", <<>>, Concat(cur, src))
            \/ \E o \in {"copy", "pickle", "iter", "series_iloc_all", "parquet"} : Step(o, <<>>, Same(cur))
